@@ -7,7 +7,7 @@
 EXTENDS FgdDocOps, Json
 
 CONSTANTS WithDoc, WithText,
-          Slice,          \* which family of definitions: "header", "kv", "io", "res", "num", "bin"
+          Slice,          \* which family of definitions: "header", "kv", "io", "res", "num", "bin", "lists"
           TextLen, TextLimit, TextMinNl
 
 VARIABLES orig, opts, stage, cur, lines, first,      \* document machine
@@ -38,6 +38,23 @@ K2 == KV("k2", <<>>, "integer", "Two", "2", "", FALSE, FALSE, <<>>)
 K1 == KV("k1", <<>>, "string", "One", "", "", FALSE, FALSE, <<>>)
 K1A == KV("k1", <<"A">>, "boolean", "One A", "", "tagged", FALSE, FALSE, <<>>)
 
+\* argument lists over an empty, a plain and a padded member, up to three long
+ArgMembers == {"", "first", " pad "}
+ArgLists == {<<>>} \cup {<<a>> : a \in ArgMembers} \cup {<<a, b>> : a, b \in ArgMembers} \cup {<<a, b, c>> : a, b, c \in ArgMembers}
+\* a typed helper's usual arguments: as they are, each one emptied, each one padded, all emptied
+Blanked(a) == {a} \cup {[a EXCEPT ![k] = ""] : k \in 1..Len(a)} \cup {[a EXCEPT ![k] = " " \o @ \o " "] : k \in 1..Len(a)}
+              \cup (IF Len(a) >= 2 THEN {[k \in 1..Len(a) |-> ""]} ELSE {})
+TypedHelpers ==
+    {<<"halfgridsnap", <<>>>>, <<"size", <<"-8 -8 -8", "8 8 8">>>>, <<"bbox", <<"-4 -4 -4", "4 4 12">>>>, <<"color", <<"255 128 0">>>>,
+     <<"sphere", <<"inner", "255 0 0">>>>, <<"line", <<"255 255 255", "targetname", "target">>>>,
+     <<"line", <<"0 255 0", "targetname", "a", "targetname", "b">>>>, <<"frustum", <<"fov", "near", "far", "col", "-1">>>>,
+     <<"cylinder", <<"255 0 0", "targetname", "a", "rad", "targetname", "b", "rad2">>>>, <<"origin", <<"pos">>>>, <<"vecline", <<"end">>>>,
+     <<"sidelist", <<"faces">>>>, <<"wirebox", <<"mins", "maxs">>>>, <<"sweptplayerhull", <<>>>>, <<"obb", <<"mins", "maxs">>>>,
+     <<"iconsprite", <<"editor/obsolete.vmt">>>>, <<"studio", <<"models/editor/axis_helper.mdl">>>>, <<"studioprop", <<"models/x.mdl">>>>,
+     <<"lightprop", <<"models/editor/spot.mdl">>>>, <<"sprite", <<"sprites/glow">>>>, <<"instance", <<>>>>, <<"decal", <<>>>>,
+     <<"overlay", <<>>>>, <<"overlay_transition", <<>>>>, <<"light", <<>>>>, <<"lightcone", <<"_in", "_out", "_col", "2">>>>,
+     <<"keyframe", <<"name">>>>, <<"animator", <<>>>>, <<"quadbounds", <<>>>>, <<"worldtext", <<>>>>, <<"catapult", <<>>>>,
+     <<"lightconenew", <<"theta", "phi", "col">>>>, <<"appliesto", <<"P2", "TF2">>>>, <<"orderby", <<"k2", "k1">>>>}
 KVk(key, name, tags, type, disp, def, desc, ro, rep, list) == [KV(name, tags, type, disp, def, desc, ro, rep, list) EXCEPT !.key = key]
 AllPlainTypes == {"void", "string", "boolean", "integer", "float", "vector", "angle", "target_destination", "target_name_or_class",
                   "target_source", "npcclass", "pointentityclass", "filterclass", "node_dest", "node_id", "scene", "sound",
@@ -118,6 +135,24 @@ Docs ==
                     r \in {<<FALSE, <<>>>>, <<TRUE, <<>>>>, <<TRUE, <<Res("MODEL", "models/a.mdl", <<>>)>>>>,
                            <<TRUE, <<Res("GAME_SOUND", "A.b", <<"+A", "B">>), Res("SOUNDSCRIPT", "scripts/x.txt", <<>>)>>>>,
                            <<TRUE, <<Res("ENTITY", "info_target", <<>>), Res("PARTICLE_FILE", "p.pcf", <<"A">>)>>>>}}
+      [] Slice = "lists" ->
+            \* the lists of an entity header / body with empty, blank and padded members:
+            \* helper arguments (an unknown helper and every typed kind), bases, tags, list items, resources
+            {Ent("pointclass", FALSE, <<>>, <<[Helper("marker", a, FALSE) EXCEPT !.known = FALSE]>>, "", <<"k2">>, <<K2>>, <<>>, <<>>, FALSE, <<>>) :
+                a \in ArgLists}
+            \cup UNION {{Ent("pointclass", FALSE, <<>>, <<Helper(h[1], a, h[1] \in {"appliesto", "orderby"})>>, "", <<"k2">>, <<K2>>, <<>>, <<>>, FALSE, <<>>) :
+                            a \in Blanked(h[2])} : h \in TypedHelpers}
+            \cup {Ent("pointclass", FALSE, b, <<>>, "", <<"k2">>, <<K2>>, <<>>, <<>>, FALSE, <<>>) :
+                    b \in {<<"">>, <<"A", "">>, <<"", "B">>, <<"A", "", "C">>, <<" A ">>, <<"A ", " B">>, <<"", "">>}}
+            \cup {Plain(<<KV("k1", tg, "integer", "Nm", "5", "", FALSE, FALSE, <<>>)>>, <<IO("Fire", tg, "void", "")>>, <<>>) :
+                    tg \in {<<"">>, <<" ">>, <<"", "A">>, <<" ", "A", "B">>}}
+            \cup {Plain(<<KV("k1", <<>>, "choices", "Nm", "", "", FALSE, FALSE,
+                            <<[v |-> "", n |-> "Empty", tags |-> <<>>], [v |-> " ", n |-> " ", tags |-> <<"">>], [v |-> "a", n |-> " padded ", tags |-> <<"", "A">>]>>)>>, <<>>, <<>>),
+                  Plain(<<KV("spawnflags", <<>>, "flags", "spawnflags", "", "", FALSE, FALSE,
+                            <<[b |-> "1", n |-> " ", d |-> TRUE, tags |-> <<>>], [b |-> "2", n |-> " lead", d |-> FALSE, tags |-> <<"">>],
+                              [b |-> "4", n |-> "trail ", d |-> TRUE, tags |-> <<"", "A">>]>>)>>, <<>>, <<>>)}
+            \cup {Ent("pointclass", FALSE, <<>>, <<>>, "", <<>>, <<>>, <<>>, <<>>, TRUE, r) :
+                    r \in {<<Res("MODEL", "", <<>>)>>, <<Res("MATERIAL", " ", <<"">>), Res("GAME_SOUND", " a ", <<"", "A">>)>>}}
       [] Slice = "res" ->
             {Ent("pointclass", FALSE, <<>>, <<>>, "", <<>>, <<>>, <<>>, <<>>, TRUE, r) :
                 r \in {<<>>} \cup {<<Res(t, f, tg)>> : t \in ResTypes, f \in {"m/a.mdl", "a b\"c"}, tg \in Tags}
@@ -156,7 +191,9 @@ ReExportSame == (stage = "reexported" /\ ReExportable(orig, opts.cs)) => lines =
 ParsedIsFixpoint == (stage = "parsed" /\ (opts.cs \/ PlainSafe(orig))) =>
     \A o \in Opts : (o.cs = opts.cs) => ExportParse(cur, o.cs, o.ls) = cur
 \* label_spawnflags never changes what is read back
-LabelFree == stage = "built" => ExportParse(orig, opts.cs, TRUE) = ExportParse(orig, opts.cs, FALSE)
+\* (a spawnflag name that starts with blanks loses them together with the label)
+NoLeadingBlank(d) == \A k \in 1..Len(d.kvs) : \A m \in 1..Len(d.kvs[k].list) : LStrip(d.kvs[k].list[m].n) = d.kvs[k].list[m].n
+LabelFree == (stage = "built" /\ NoLeadingBlank(orig)) => ExportParse(orig, opts.cs, TRUE) = ExportParse(orig, opts.cs, FALSE)
 \* with custom syntax nothing is lost but the documented canonical forms
 SameKV(a, b) ==
     /\ a.key = b.key /\ a.name = b.name /\ a.tags = b.tags /\ a.type = b.type /\ a.custom = b.custom
